@@ -287,4 +287,26 @@ var directCorpus = [][2]string{
 		"access(all) contract C { access(all) struct interface S {} }"},
 	{"access(all) contract C { access(all) entitlement E }",
 		"access(all) contract C { }"},
+	// second half of "remove with #removedType, later declare the name again": the old version
+	// has only the pragma
+	{"access(all) contract C { #removedType(S) }",
+		"access(all) contract C { #removedType(S)\n access(all) struct S { access(all) var a: String } }"},
+	{"access(all) contract C { #removedType(S) }",
+		"access(all) contract C { #removedType(S)\n access(all) resource S {} }"},
+	{"access(all) contract C { #removedType(S) }",
+		"access(all) contract C { #removedType(S)\n access(all) enum S: UInt8 { access(all) case a } }"},
+	{"access(all) contract C { #removedType(S) }",
+		"access(all) contract C { #removedType(S)\n access(all) struct interface S {} }"},
+	{"access(all) contract C { #removedType(S)\n access(all) struct T {} }",
+		"access(all) contract C { #removedType(S)\n access(all) struct T {}\n access(all) attachment S for T {} }"},
+	{"access(all) contract C { #removedType(S) }",
+		"access(all) contract C { access(all) struct S {} }"},
+	{"access(all) contract C { #removedType(S) }",
+		"access(all) contract C { }"},
+	{"access(all) contract C { #removedType(S)\n #removedType(T) }",
+		"access(all) contract C { #removedType(T)\n #removedType(S)\n access(all) event T() }"},
+	{"access(all) contract C { access(all) struct A { #removedType(S) } }",
+		"access(all) contract C { access(all) struct A { #removedType(S)\n access(all) struct S {} } }"},
+	{"access(all) contract C { }",
+		"access(all) contract C { #removedType(S)\n access(all) struct S {} }"},
 }
